@@ -902,7 +902,7 @@ int main(int argc, char** argv) {
     // waiter must find the name loaded (no second factory call). N covers the wrap-around of narrow counters.
     std::vector<long> ns = {1, 2, 3, 15, 16, 17, 127, 128, 129, 255, 256, 257, 511, 512, 513, 1024};
     if (a.get("tier", "quick") == "thorough")
-      for (long v : {4095L, 4096L, 32767L, 32768L, 65535L, 65536L, 65537L, 131072L}) ns.push_back(v);
+      for (long v : {4095L, 4096L, 32767L, 32768L, 65535L, 65536L, 65537L}) ns.push_back(v);
     return sup::supervise(static_cast<long>(ns.size()) * 2, opt, [&](long c, sup::Ctx& ctx) {
       static std::vector<std::vector<std::string>> ref;
       if (ref.empty()) {
